@@ -1281,7 +1281,9 @@ where
         "rel_ab":a.relative_eq(b, eps, rel),"rel_ba":b.relative_eq(a, eps, rel)})
 }
 
-const TOLS: [(f64, f64); 5] = [(0.0, 0.0), (f64::EPSILON, f64::EPSILON), (1e-6, 1e-9), (10.0, 0.5), (1e-3, 0.0)];
+// (epsilon, max_relative): equal, absolute-dominated, relative-dominated (max_relative > epsilon: the two must not be
+// interchangeable anywhere), one of them zero
+const TOLS: [(f64, f64); 8] = [(0.0, 0.0), (f64::EPSILON, f64::EPSILON), (1e-6, 1e-9), (10.0, 0.5), (1e-3, 0.0), (1e-9, 1e-3), (0.0, 0.25), (1e-12, 1e-6)];
 
 /// all the pairs for one value of a fixed-shape type: itself, and every single position perturbed
 fn approx_single<T>(ty: &str, mk: &dyn Fn(&[f64]) -> T, base: &[f64], shape: &[usize], rng: &mut Rng, sink: &mut Sink) -> usize
@@ -1303,14 +1305,21 @@ where
             v
         };
         for p in positions {
-            for k in 0..3 {
+            // differences just below and just above every threshold a (possibly wrong) rule could use: epsilon,
+            // max_relative * |x|, and the two with the parameters or the scaling confused (max_relative alone,
+            // epsilon * |x|); then far beyond all of them
+            let x = base[p];
+            let scale = if eps > 0.0 { eps } else { x.abs().max(1e-300) * f64::EPSILON };
+            let mut deltas = vec![scale / 2.0, 2.0 * scale + x.abs() * 4.0 * rel, -(1.0 + rng.unit()) * (scale * 4.0 + x.abs() * (4.0 * rel + 1e-3))];
+            for t in [rel * x.abs(), rel, eps * x.abs()] {
+                if t > 0.0 && t.is_finite() && t != eps {
+                    deltas.push(if rng.bool() { 0.6 * t } else { -0.6 * t });
+                    deltas.push(if rng.bool() { 1.7 * t } else { -1.7 * t });
+                }
+            }
+            for d in deltas {
                 let mut fb = base.to_vec();
-                let scale = if eps > 0.0 { eps } else { fb[p].abs().max(1e-300) * f64::EPSILON };
-                fb[p] += match k {
-                    0 => scale / 2.0,
-                    1 => 2.0 * scale + fb[p].abs() * 4.0 * rel,
-                    _ => -(1.0 + rng.unit()) * (scale * 4.0 + fb[p].abs() * (4.0 * rel + 1e-3)),
-                };
+                fb[p] += d;
                 let b = mk(&fb);
                 sink.ev(approx_event(ty, &a, &b, base, &fb, shape, shape, eps, rel));
                 n += 1;
@@ -1536,13 +1545,26 @@ pub fn drive_serde(seed: u64, rounds: usize, sink: &mut Sink) -> usize {
 /// TLC-enumerated knot sets (integers) run through the real constructions under exact power-of-two
 /// scalings, logged as ordinary `spline` / `linear` events: the trace specification is the judge.
 pub fn replay_events(kind: &str, lines: &[Value], sink: &mut Sink) -> usize {
+    if kind == "lib" {
+        return crate::session::replay_lib(lines, &[(1.0, 1.0), (0.7, 1.3)], sink);
+    }
+    if kind == "repo-lib" {
+        // the repository's own unit tests, re-expressed as scripts (scenarios/repo_tests.ndjson)
+        let scripts: Vec<Value> = lines.iter().filter(|l| l.get("ops").is_some()).cloned().collect();
+        return crate::session::replay_lib(&scripts, &[(1.0, 1.0)], sink);
+    }
     let mut n = 0;
     for l in lines {
-        let kn: Vec<(i64, i64)> = l["knots"].as_array().unwrap().iter().map(|k| (k[0].as_i64().unwrap(), k[1].as_i64().unwrap())).collect();
+        if kind == "repo-build" && l.get("build").is_none() {
+            continue;
+        }
+        // integer grid knots (MC_Spline / MC_Linear) or, for the repository's tests, the literal float knots
+        let kn: Vec<(f64, f64)> = l["knots"].as_array().unwrap().iter().map(|k| (k[0].as_f64().unwrap(), k[1].as_f64().unwrap())).collect();
+        let (kind, repo) = if kind == "repo-build" { (l["build"].as_str().unwrap(), true) } else { (kind, false) };
         match kind {
             "spline" => {
-                for &(a, b, off) in &[(0i32, 0i32, 0.0f64), (-20, 3, 0.0), (7, -30, 0.0), (0, 0, 1024.0), (-10, 0, -3.0)] {
-                    let ks: Vec<Knot> = kn.iter().map(|&(x, y)| Knot { x: (x as f64 + off) * 2f64.powi(a), y: y as f64 * 2f64.powi(b) }).collect();
+                for &(a, b, off) in &[(0i32, 0i32, 0.0f64), (-20, 3, 0.0), (7, -30, 0.0), (0, 0, 1024.0), (-10, 0, -3.0)][..if repo { 1 } else { 5 }] {
+                    let ks: Vec<Knot> = kn.iter().map(|&(x, y)| Knot { x: (x + off) * 2f64.powi(a), y: y * 2f64.powi(b) }).collect();
                     let r = guarded(|| constrained_spline(&ks));
                     let (ends, coef, pan) = match &r {
                         Ok(p) => (ends_of(p), p.segments.iter().map(|s| jbs(&s.poly.0)).collect::<Vec<_>>(), false),
@@ -1555,8 +1577,8 @@ pub fn replay_events(kind: &str, lines: &[Value], sink: &mut Sink) -> usize {
             "linear" => {
                 // grid unit = eps/2 at base 0.25 (spacing of floats there is eps/4): gaps of 1 unit are positive but
                 // narrower than epsilon, gaps of 2 units are exactly epsilon; and a coarse scaling where every gap is wide
-                for &(base, unit) in &[(0.25f64, f64::EPSILON / 2.0), (0.0, 1.0), (-8.0, 0.5)] {
-                    let ks: Vec<Knot> = kn.iter().map(|&(x, y)| Knot { x: base + x as f64 * unit, y: y as f64 }).collect();
+                for &(base, unit) in &[(0.0, 1.0), (0.25f64, f64::EPSILON / 2.0), (-8.0, 0.5)][..if repo { 1 } else { 3 }] {
+                    let ks: Vec<Knot> = kn.iter().map(|&(x, y)| Knot { x: base + x * unit, y }).collect();
                     let r = guarded(|| linear(&ks));
                     let (ends, coef, pan, ts, fts) = match &r {
                         Ok(p) => {
